@@ -1113,3 +1113,40 @@ Definition sw_all : list (bool * bool) :=
 Example sweep_plan_scan_sound :
   forallb fst sw_all = true /\ (100 <? N.of_nat (length (filter snd sw_all))) = true.
 Proof. vm_compute. split; reflexivity. Qed.
+(* ------------------------------------------------------------------ Scanner: OFFSET/LIMIT glue *)
+Lemma window_as_sql {A} (s e : N) (l : N) (o : N) (rows : list A) :
+  s = N.min o (lenN rows) -> e = N.min (o + l) (lenN rows) ->
+  window (Some (s, e)) rows = firstn (N.to_nat l) (skipn (N.to_nat o) rows).
+Proof.
+  intros -> ->. unfold window, lenN.
+  assert (E : skipn (N.to_nat (N.min o (N.of_nat (length rows)))) rows = skipn (N.to_nat o) rows).
+  { destruct (N.le_gt_cases o (N.of_nat (length rows))) as [H|H].
+    - rewrite N.min_l by exact H. reflexivity.
+    - rewrite N.min_r by lia. rewrite Nat2N.id. rewrite !skipn_all2 by lia. reflexivity. }
+  rewrite E. apply (winT_eq_take (N.to_nat o)). lia.
+Qed.
+
+Lemma scanner_limit_spec {A} limit offset hf ho (rows : list A) :
+  Known_C16_limit_zero_ignored limit offset hf ho = false ->
+  scanner_limit limit offset hf ho rows = sql_limit limit offset rows.
+Proof.
+  intros Hk. unfold scanner_limit, sql_limit, opt_firstn. destruct (negb hf && negb ho) eqn:Hp.
+  - destruct limit as [l|], offset as [o|].
+    + apply window_as_sql; reflexivity.
+    + rewrite (window_as_sql 0 (N.min l (lenN rows)) l 0); [reflexivity | unfold lenN; lia | f_equal].
+    + unfold window. rewrite firstn_all2; [|rewrite skipn_length; lia].
+      destruct (N.le_gt_cases o (N.of_nat (length rows))) as [H|H].
+      * rewrite N.min_l by exact H. reflexivity.
+      * rewrite N.min_r by lia. rewrite Nat2N.id. rewrite !skipn_all2 by lia. reflexivity.
+    + reflexivity.
+  - destruct limit as [l|], offset as [o|]; cbn [orb]; try (rewrite orb_true_r; reflexivity); try reflexivity.
+    destruct (N.ltb_spec 0 l) as [H|H]; cbn [orb]; [reflexivity|].
+    assert (l = 0) by lia. subst l. unfold Known_C16_limit_zero_ignored in Hk.
+    apply andb_false_iff in Hp. destruct hf, ho; cbn in Hk, Hp; try discriminate; destruct Hp; discriminate.
+Qed.
+
+Lemma scanner_limit_zero_refuted :
+  Known_C16_limit_zero_ignored (Some 0) None true false = true
+  /\ scanner_limit (Some 0) None true false [1; 2; 3] = [1; 2; 3]
+  /\ sql_limit (Some 0) None [1; 2; 3] = @nil N.
+Proof. vm_compute. auto. Qed.
